@@ -1685,6 +1685,8 @@ class Aliasing(_Base17):
 
 HARNESSES = [Encoder(), ResultRT(), ParamsRT(), SimResultsRT(),
              SaveHistories(), Aliasing()]
+for _h in HARNESSES:      # many tiny work units: share forks
+    type(_h).units_per_process = 8
 
 MANIFEST = dict(
     category='model_checking',
